@@ -218,10 +218,11 @@ int main(int argc, char** argv)
         while (n.load() < 16) std::this_thread::sleep_for(std::chrono::microseconds(100));
         g_base_page = lowest.load() - (1u << 22);
     }
-    static std::ptrdiff_t const SZ[] = {0x10000, 0x10000, 0x20000, 0x200000};    // default(small), small, medium, large
+    // default(small), small, medium, large, huge
+    static std::ptrdiff_t const SZ[] = {0x10000, 0x10000, 0x20000, 0x200000, 0x2000000};
     static pika::execution::thread_stacksize const SC[] = {pika::execution::thread_stacksize::default_,
         pika::execution::thread_stacksize::small_, pika::execution::thread_stacksize::medium,
-        pika::execution::thread_stacksize::large};
+        pika::execution::thread_stacksize::large, pika::execution::thread_stacksize::huge};
 
     for (int hi = 0; hi < nhist; ++hi)
     {
@@ -259,7 +260,7 @@ int main(int argc, char** argv)
             blocked.push_back(std::make_unique<std::atomic<int>>(0));
             c->sem = sems.back().get();
             c->blocked = blocked.back().get();
-            cls[t - 1] = (int) R.below(4);
+            cls[t - 1] = R.chance(1, 10) ? 4 : (int) R.below(4);
             ctx.push_back(std::move(c));
         }
         // some tasks are pika::threads whose handle is interrupted *after* they finished (a late
